@@ -161,6 +161,16 @@ Theorem C12_path_walk_is_lookup : forall C rel (t : tree C),
 Proof. exact reach_is_lookup. Qed.
 Print Assumptions C12_path_walk_is_lookup.
 
+(* a target that does not exist (yet): the search path is evaluated at the first existing ancestor *)
+Theorem C12_path_lookup_dir : forall (t : ftree) d,
+  isdir _ t [] = true ->
+  exists nearer farther,
+    ancestors d = nearer ++ last (dir_chain t d) [] :: farther /\
+    isdir _ t (last (dir_chain t d) []) = true /\
+    Forall (fun y => isdir _ t y = false) nearer.
+Proof. exact lookup_dir_is_first_existing_ancestor. Qed.
+Print Assumptions C12_path_lookup_dir.
+
 (* ---- the property's first sentence, end to end ---- *)
 (* a successful (fresh) answer of get_default for a target is the union of the imports of the files
    the search path reaches from the target's first existing directory, minus everything named by any
